@@ -95,6 +95,12 @@ TrFaultSync ==
   /\ Is("sync") /\ Ev.injected /\ SyncOn
   /\ FaultSync
   /\ plen' = 0 /\ UNCHANGED <<fname, cnt, seen>>
+\* without SyncEnable: the Sync that rotation issues for a memory-mapped file
+\* fails, the commit ends before the next file is created
+TrFaultRotSync ==
+  /\ Is("sync") /\ Ev.injected /\ ~SyncOn
+  /\ FaultRotateBody
+  /\ UNCHANGED <<fname, cnt, plen, seen>>
 TrFaultCreate ==
   /\ Is("createfail")
   /\ FaultRotateBody
@@ -117,7 +123,7 @@ TrRenew ==
   /\ l <= Len(TLog) /\ Ev.ev = "begin" /\ cur = Idle /\ ntx = MaxTx
   /\ Epoch(fname[active], cnt[active]) /\ seen' = seen /\ l' = l
 
-TNext == TrEpoch \/ TrBegin \/ TrCreate \/ TrWrite \/ TrSync \/ TrSyncNoop \/ TrFaultWrite \/ TrFaultSync \/ TrFaultCreate
+TNext == TrEpoch \/ TrBegin \/ TrCreate \/ TrWrite \/ TrSync \/ TrSyncNoop \/ TrFaultWrite \/ TrFaultSync \/ TrFaultRotSync \/ TrFaultCreate
          \/ TrEnd \/ TrEndEarly \/ TrRenew
 TraceSpec == TInit /\ [][TNext]_tvars
 
